@@ -61,8 +61,11 @@ def texts():
     t1 = b"@export A = 'a' b:B;\nB = 'b';\n"
     t2 = b"@export A = x:X {',' x:X};\n@string X = {'0'..'9'}+;\n"
     bad = b"@export A = ;;\n"
+    # read by the front end, rejected by the code generator
+    bad2 = b"@export A = 'a' b:B;\n@string @export B = 'b';\n"
+    bad3 = b"@export A = !(f:B) 'a';\nB = 'b';\n"
     coll = collide(zlib.crc32(t1), b"@export A = 'z';\n# ")
-    return {"1": t1, "2": t2, "x": bad, "c": coll}
+    return {"1": t1, "2": t2, "x": bad, "y": bad2, "z": bad3, "c": coll}
 
 
 PREFIXES = [b"", b"use a;", b"use a;\nuse b;", b"// p"]
@@ -92,12 +95,14 @@ def check(out, ctx):
         hist.append(["E1", "P" + PREFIXES[1].hex(), "R", "P", "R"])
         hist.append(["E1", "R", "Ec", "R"])
         hist.append(["E1", "R", "Ex", "R", "E-", "R", "E2", "R", "D", "R", "R"])
+        hist.append(["E1", "R", "Ey", "R", "R", "E1", "R"])
+        hist.append(["E2", "P" + PREFIXES[1].hex(), "R", "Ez", "R", "R", "Ey", "R", "E2", "R"])
         for _ in range(nh):
             ops = []
             for _ in range(rnd.randint(3, 12)):
                 r = rnd.random()
                 if r < 0.3:
-                    ops.append("E" + rnd.choice(["1", "2", "x", "c", "-", "1", "2"]))
+                    ops.append("E" + rnd.choice(["1", "2", "x", "y", "z", "c", "-", "1", "2"]))
                 elif r < 0.5:
                     ops.append("P" + rnd.choice(PREFIXES).hex())
                 elif r < 0.6:
@@ -194,7 +199,7 @@ def check(out, ctx):
                 samples.append({"history": ops, "mode": mode, "runs": trace})
         out.coverage.update({
             "evaluations": runs, "distinct_nontrivial": len(nontrivial),
-            "rule": "random histories (3..12 ops) of {edit grammar to one of 2 valid / 1 invalid / 1 CRC-colliding text or make it unreadable, change prefix (4 prefixes incl. one that is a prefix of another), delete destination, run} in file mode, explicit-destination mode and directory mode, plus 4 directed histories; evaluations = runs of Compile; non-trivial = history of >= 4 ops; distinct by op sequence",
+            "rule": "random histories (3..12 ops) of {edit grammar to one of 2 valid / 1 syntax-invalid / 2 generator-rejected / 1 CRC-colliding text or make it unreadable, change prefix (4 prefixes incl. one that is a prefix of another), delete destination, run} in file mode, explicit-destination mode and directory mode, plus 6 directed histories; evaluations = runs of Compile; non-trivial = history of >= 4 ops; distinct by op sequence",
             "samples": samples, "histories": len(hist), "model_vs_implementation_disagreements": disagree,
             "known_stale_destinations_seen": stale_known,
         })
